@@ -45,7 +45,8 @@ var clientNames = []string{"Frank's laptop", "Kids", "a|b", "x, y", "dead.beef",
 	"Kids ", " guest laptop", "\ttabbed"} // ... with blanks at their edges, too (always written in quotes)
 var clientIPs = []string{"1.2.3.4", "1.2.3.5", "10.0.0.1", "10.255.255.255", "11.0.0.0", "192.168.1.1", "192.168.1.255", "192.168.2.1",
 	"::1", "fe01::1", "fe01:0:0:1::1", "2001:db8::1", "2001:db9::1", "0.0.0.0", "255.255.255.255", "::",
-	"::ffff:1.2.3.4", "::ffff:192.168.1.1"} // IPv4-mapped: an address equals itself, whatever its form
+	"::ffff:1.2.3.4", "::ffff:192.168.1.1", // IPv4-mapped: an address equals itself, whatever its form
+	"2001:0db8:0000:0000:0000:0000:192.168.100.100", "0000:0000:0000:0000:0000:ffff:192.168.100.200"} // the longest spellings (45 bytes)
 var clientCIDRs = []string{"10.0.0.0/8", "10.0.0.1/8", "192.168.1.0/24", "192.168.1.77/24", "1.2.3.4/32", "1.2.3.4/31", "1.2.3.4/30",
 	"fe01::/64", "fe01::/16", "::/0", "0.0.0.0/0", "2001:db8::/32", "2001:db8::5/33", "128.0.0.0/1", "::1/128"}
 
